@@ -72,6 +72,11 @@ def case(cid, clause, mode, ra, rb, dtype="float64", rtol=None, atol=None, seq="
         sa, sb = rows_of(ra), rows_of(rb)
     ia, ib = intern_seqs(sa, sb)
     ok = ra["ok"] and rb["ok"] and len(ra["y"]) > 0 and len(rb["y"]) > 0
-    return {"id": cid, "clause": clause, "mode": mode, "seqA": ia, "seqB": ib, "okA": bool(ra["ok"]), "okB": bool(rb["ok"]),
+    dense_units = -1
+    pa, pb = ra.get("probes") or [], rb.get("probes") or []
+    if ok and rtol is not None and pa and len(pa) == len(pb) and num.frac(ra["t"][0]) == num.frac(rb["t"][0]) \
+            and num.gap_units(ra["t"][-1], rb["t"][-1], [ra["t"][-1]], dt) <= 64:
+        dense_units = max(tol_units(u, w, rtol, atol) for u, w in zip(pa, pb))
+    return {"id": cid, "denseTolUnits": dense_units, "clause": clause, "mode": mode, "seqA": ia, "seqB": ib, "okA": bool(ra["ok"]), "okB": bool(rb["ok"]),
             "units": state_units(ra["y"][-1], rb["y"][-1], dt) if ok else 0,
             "tolUnits": tol_units(ra["y"][-1], rb["y"][-1], rtol, atol) if ok and rtol is not None else 0}
